@@ -14,7 +14,7 @@ STUBS = ['cli.common.signal -> FakeSignal/VirtualAlarm (handler called at the k-
 PROBES = ['corpus_case', 'step_cap_discarded', 'alarm_fired', 'retry_depth_ge_2', 'ladder_exhausted', 'timeout_swallowed_by_skip_failed',
           'peptides_lost_legitimately', 'threads_gt_1', 'fired_in_stage:create_variant_graph',
           'fired_in_stage:fit_into_codons', 'fired_in_stage:translate', 'fired_in_stage:create_cleavage_graph',
-          'fired_in_stage:call_variant_peptides', 'fired_in_circ_or_fusion_unit', 'fired_near_attempt_end']
+          'fired_in_stage:call_variant_peptides', 'fired_in_circ_or_fusion_unit', 'fired_near_attempt_end', 'retry_with_unreduced_limits']
 RULE = ('case = generated reference + records, usually with a planted cluster of 5-9 variants within 12 nt so that '
         'the complexity limits bind; ladders from {7 | 7 5 3 | 9 4 | -1} x {2 | 2 1 0}, --skip-failed on/off, '
         'threads 1..4; a plan of 1..ladder+1 alarms on 1-2 transcripts, each at a PRNG-chosen line event (biased '
@@ -26,8 +26,8 @@ ASSUMPTIONS = [
     'for real signal handlers',
     'simulated time advances by --timeout-seconds per fired alarm',
 ]
-LADDERS_MV = [[7], [7, 5, 3], [9, 4], [-1], [7, 3, 1]]
-LADDERS_AV = [[2], [2, 1, 0], [2, 0]]
+LADDERS_MV = [[7], [7, 5, 3], [9, 4], [-1], [7, 3, 1], [7, 7, 7]]
+LADDERS_AV = [[2], [2, 1, 0], [2, 0], [2, 2, 2]]
 
 
 def n_cases(tier):
@@ -40,6 +40,8 @@ def gen(seed, idx):
     cfg['noncanonical_transcripts'] = False
     cfg['max_variants_per_node'] = rng.choice(LADDERS_MV)
     cfg['additional_variants_per_misc'] = rng.choice(LADDERS_AV)
+    if cfg['max_variants_per_node'] == [7, 7, 7]:
+        cfg['additional_variants_per_misc'] = [2, 2, 2]     # a ladder that reduces nothing
     cfg['skip_failed'] = rng.random() < 0.4
     cfg['timeout_seconds'] = rng.choice([1800, 60, 600])
     if rng.random() < 0.2:
@@ -127,10 +129,19 @@ def judge(case, wd, threads, sched, plan, lazy_box, m=None):
                         overrides={'max_variants_per_node': [mv], 'additional_variants_per_misc': [av]})
             cache[key] = r
         return cache[key]
+    first_limits = (cfg['max_variants_per_node'][0], cfg['additional_variants_per_misc'][0])
     for tx, res in t.wrapper_results.items():
         got = set(res)
         base = set(e_first.get(tx, []))
         if got <= base:
+            # a retry whose limits EQUAL the initial ones (ladder 7 7 7 / 2 2 2) reduces nothing: it must reproduce
+            # the uninterrupted attempt, losing a peptide is then not "removal by a reduced limit" but state left
+            # behind by the interrupted attempt
+            if got != base and t.final_params.get(tx) == first_limits and any(f['tx'] == tx for f in fired) \
+                    and not cfg.get('skip_failed'):
+                out.append(('lost-without-reduction', 'lost-without-reduction',
+                            {'tx': tx, 'n_lost': len(base - got), 'lost': sorted(base - got)[:5],
+                             'limits': first_limits, 'fired': [f for f in fired if f['tx'] == tx]}))
             continue
         extra = got - base
         mv, av = t.final_params.get(tx, (None, None))
@@ -233,6 +244,9 @@ def run_case(seed, task, tier):
                     probes['fired_near_attempt_end'] = probes.get('fired_near_attempt_end', 0) + 1
                 out['signatures'].append({'depth': depth, 'func': f['func'], 'site': f['site'],
                                           'skip_failed': case['config']['skip_failed']})
+            if t.alarm_fired and len(set(case['config']['max_variants_per_node'])) == 1 and \
+                    len(case['config']['max_variants_per_node']) > 1:
+                probes['retry_with_unreduced_limits'] = probes.get('retry_with_unreduced_limits', 0) + 1
             if threads > 1 and t.alarm_fired:
                 probes['threads_gt_1'] = probes.get('threads_gt_1', 0) + 1
             if info.get('aborted'):
